@@ -74,9 +74,13 @@ impl Prop for C06 {
             // e: a key whose action is a custom action only (no keycode of its own): it is a
             // following key like any other
             let custom = *r.pick(&["mlft", "(push-msg hi)", "(unicode x)", "mrgt"]);
+            // g: (one-shot-pause-processing N), tapped only while no one-shot is active and more than
+            // N ms before the next one: a pause "for a time" that is over must change nothing
+            let pause_n = *r.pick(&[20u64, 100]);
             case.cfg = format!(
-                "(defcfg rapid-event-delay {red})\n(defsrc a b c d e f)\n(deflayer l0 ({v} {t} {p}) 1 2 ({v} {t} {p2}) {custom} 5)\n(deflayer l1 _ 3 4 _ _ _)\n"
+                "(defcfg rapid-event-delay {red})\n(defsrc a b c d e f g)\n(deflayer l0 ({v} {t} {p}) 1 2 ({v} {t} {p2}) {custom} 5 (one-shot-pause-processing {pause_n}))\n(deflayer l1 _ 3 4 _ _ _ _)\n"
             );
+            let g_key = oscode_of("g");
             let e_key = oscode_of("e");
             let f_key = oscode_of("f");
             let grid = |r: &mut Rng| -> u32 { *r.pick(&[0u64, 1, 1, 2, 3, t.saturating_sub(1), t, t + 1, red, red + 1, 7]) as u32 };
@@ -145,6 +149,14 @@ impl Prop for C06 {
                     let mut must_not: Vec<usize> = vec![];
                     let after_end = (red + 4) as u32;
                     for _ in 0..n {
+                        if r.chance(250) {
+                            // (the gap after the pause key is part of the expectation)
+                            case.set("min_gaps", 0);
+                            ops.push(Op::Press(g_key));
+                            ops.push(Op::Gap(2));
+                            ops.push(Op::Release(g_key));
+                            ops.push(Op::Gap((pause_n + 10) as u32));
+                        }
                         match r.pick_w(&[30, 30, 25, if is_pcancel(v) { 0 } else { 25 }, 25, 30]) {
                             5 => {
                                 // two overlapping following keys, the later one released first, then a
